@@ -65,6 +65,10 @@ def read_var(var):
         vals = var[...]
     except Exception:
         vals = var[:]
+    if vals is np.ma.masked:
+        # fully masked scalar read through netCDF4: the constant carries no dtype
+        dt = getattr(var, 'dtype', np.dtype('f8'))
+        return np.zeros((), dtype=dt), np.ones((), dtype=bool)
     if isinstance(vals, np.ma.MaskedArray):
         data = np.array(np.ma.getdata(vals), copy=True)
         mask = np.array(np.ma.getmaskarray(vals), copy=True)
